@@ -22,7 +22,7 @@ class Engine(object):
         self.timeout_ms = timeout_ms
         self.seed = seed
         self.ext = []              # extension objects (language layer, bdd layer)
-        self.global_axioms = [hp.pick_axiom(), hp.pickR_axiom(), hp.empty_rel_axiom()] + hp.isend_axioms()
+        self.global_axioms = [hp.pick_axiom(), hp.empty_rel_axiom()] + hp.isend_axioms()
         self.baseline_names = set()
         self.escalations_left = 3
 
@@ -381,6 +381,10 @@ class Engine(object):
         if base.ty == 'reflist' and attr == 'pop' and not args:
             # bag abstraction: an arbitrary element; the remainder is any bag between (old minus that element) and old
             S = h['refsets'][base.t]
+            # (choice for THIS set only: a global axiom over every set of references would fire on the
+            #  parent sets and caches of the BDD layer)
+            xr = z3.Int('x!ne')
+            path.pc.append(z3.ForAll([xr], z3.Implies(S[xr], hp.nonemptyR(S)), patterns=[S[xr]]))
             ex.may_raise('IndexError', z3.Not(hp.nonemptyR(S)), path, e)
             v = hp.fresh('popped', I)
             rest = hp.fresh('rest', hp.SetR)
